@@ -5,4 +5,5 @@ Extraction "model.ml" mkNumOps nhalf sc_dist2 sc_grad pdiff per_dist2 per_grad c
   uv_dist2 uv_grad q_dist2 q_grad vec_dist2 vec_grad position_distance dv_dist2 dv_lgrad
   sc_interp v3_interp uv_interp vec_interp pv_run pv_in_force
   v3dot v3norm2 qdot uv_constrain q_constrain qnorm2 vec_inner q_interp uv_interp_undefined q_interp_undefined
-  dv_rgrad comp_dist2 comp_lgrad comp_rgrad comp_wrap mr_center opes_merge_center pv_wrapped_dist2.
+  dv_rgrad comp_dist2 comp_lgrad comp_rgrad comp_wrap mr_center opes_merge_center pv_wrapped_dist2
+  hv_kind dvt_dist2 dvt_lgrad dvt_rgrad.
